@@ -176,7 +176,7 @@ def tree(draw, tier):
 
 
 def parts(tier):
-    return [
+    return [Part("class_twins", strategy=lambda t: S.class_twin_spec().map(lambda s_: {"model": s_}), check=check_complete, quick=(1, 300), thorough=(2, 3000)), Part("by_reference", strategy=lambda t: S.by_reference_spec().map(lambda s_: {"model": s_}), check=check_complete, quick=(1, 200), thorough=(2, 2000))] + [
         Part("adversarial", strategy=lambda t: adversarial(t), check=check_sound, quick=(6, 800), thorough=(12, 8000), fuzz=(2, 60000)),
         Part("tree", strategy=lambda t: tree(t), check=check_complete, quick=(1, 600), thorough=(2, 4000)),
         Part("sharing", strategy=lambda t: S.model_spec(depth=3 if t == "quick" else 4, profile="small").map(lambda s: {"model": s}),
